@@ -72,9 +72,9 @@ func genC01Case(t *rapid.T) C01Case {
 			}
 			op.Seed = &world.RequestSpec{
 				ID: rapid.SampledFrom(c01SeedIDs).Draw(t, "seedid"), AppID: fmt.Sprintf("app-%d", sp),
-				RelayState: rapid.SampledFrom(relayStates[1:]).Draw(t, "relay"),
-				ACS:        rapid.SampledFrom([]string{fmt.Sprintf("https://sp%d.example/acs/post", sp), "", "https://elsewhere.example/acs?x=1&y=2"}).Draw(t, "acs"),
-				Binding:    rapid.SampledFrom([]string{world.BindPost, world.BindRedirect, world.BindPost, world.BindRedirect, world.BindArtifact, ""}).Draw(t, "binding"),
+				RelayState:    rapid.SampledFrom(relayStates[1:]).Draw(t, "relay"),
+				ACS:           rapid.SampledFrom([]string{fmt.Sprintf("https://sp%d.example/acs/post", sp), "", "https://elsewhere.example/acs?x=1&y=2"}).Draw(t, "acs"),
+				Binding:       rapid.SampledFrom([]string{world.BindPost, world.BindRedirect, world.BindPost, world.BindRedirect, world.BindArtifact, ""}).Draw(t, "binding"),
 				AuthRequestID: "_orig-" + fmt.Sprint(i), UserID: user, Done: done,
 			}
 			if rapid.IntRange(0, 9).Draw(t, "unknownapp") == 0 {
